@@ -53,7 +53,7 @@ def make_cases(ctx, cid, en, mode=None, flags=None):
         files0, steps, edit = hist
         runs, rerun = [run] + steps + [run], True
     gx = [enumgen.generated_sexp(en, decl)] if rerun else []
-    main = {"id": cid, "en": en, "decl": decl, "files": files0, "codec": codec, "edit": edit, "mode": lay["mode"] + ("+spread" if lay["spread"] and lay["mode"].startswith("file") else ""),
+    main = {"id": cid, "en": en, "decl": decl, "files": files0, "codec": codec, "edit": edit, "verbose": lay["verbose"], "mode": lay["mode"] + ("+spread" if lay["spread"] and lay["mode"].startswith("file") else ""),
             "runs": runs, "rerun": rerun,
             "oracle": {".": enumgen.oracle_c14(en, decl, hi, negs, codec)},
             "sexp": enumgen.case_sexp(cid, "c14", en, gx + [["flags"] + codec, ["hi", str(hi)], ["neg"] + [str(v) for v in negs]]), "cmd": "shoot " + " ".join(run["args"]) + (" ; edit(%s) ; again" % edit if hist else ""),
@@ -155,6 +155,7 @@ def run(ctx, obl):
             res.hist("shape", main["en"].get("shape", "corpus"))
             res.hist("run-mode", main["mode"])
             res.hist("rerun", str(main["rerun"]))
+            res.hist("verbose-flag", str(main["verbose"]))
             res.hist("codec-flags-with-bit", "+".join(main["codec"]) or "none")
             res.hist("edit-history", main["edit"])
             res.hist("generated-header-file", str(bool(main["en"].get("genheader"))))
@@ -180,6 +181,8 @@ def run(ctx, obl):
                 "declared bits, with arbitrary overlapping values, and signed enums with a flag on the sign bit (negative values, `_max` negative); "
                 "bit-flag enums generated from the grammar (1-8 single-bit flags, contiguous `1 << iota` runs or scattered decimal/hex/shift "
                 "literals in any order, optional zero constant, 0-3 declared composites `A | B`, all 10 integer kinds, prefixed or plain names); "
+                "30%% of the runs carry the logging-only flag -v / -verbose (same expectation); between the String() sweeps the runtime helpers IsEnum / "
+                "ParseEnum / TryParseEnum are called on declared, undeclared and union values and Values() is observed again (vals2); "
                 "String() is evaluated as a CALL HISTORY - ascending sweep, the same sweep in descending call order (every union before 0 and the declared "
                 "values), through MarshalText / json.Marshal / Value when the flags add them, ascending again - and must be a function of the value; "
                 "in packages whose constants are spread over several files one constant-bearing file may carry another generator's `// Code generated … DO NOT "
